@@ -344,6 +344,7 @@ func (m *Modeenv) WriteTo(rootdir string) error {
 	if err := osutil.AtomicWriteFile(modeenvPath, buf.Bytes(), 0644, 0); err != nil {
 		return err
 	}
+	verifPoint("modeenv-write", modeenvPath)
 	return nil
 }
 
